@@ -35,7 +35,7 @@ REQUIRED = ["reads", "delivered", "cuts_inside_header", "cuts_inside_body",
             "handshake_prefixes_segmented",
             "ctl_reads_filled_with_header_only_messages",
             "sw_reads_filled_with_header_only_messages",
-            "streams_through_the_listening_loop",
+            "streams_through_the_listening_loop", "messages_handled_by_a_slow_handler",
             "loop_arrivals_that_complete_no_message"]
 TIMEOUT = {"quick": 900, "thorough": 7200}
 
@@ -614,6 +614,12 @@ def loop_world ():
       def h (e):
         L = _lw["got"].get(e.dpid)
         if L is not None: L.append((kind,) + f(e))
+        if _lw.get("slow") and kind != "up":
+          # a handler that takes its time (a database lookup, a path
+          # computation): the clock moves on while the rest of what was
+          # read is still waiting to be handed out
+          w.clock.advance(_lw["slow"])
+          _lw["slow_calls"] = _lw.get("slow_calls", 0) + 1
       return h
     nexus.addListenerByName("ConnectionUp", rec("up", lambda e: ()))
     nexus.addListenerByName("ConnectionDown", rec("down", lambda e: ()))
@@ -673,6 +679,8 @@ def run_loop (case, rep):
   def fire (key, what):
     rep.violation("C02 ctl-loop %s" % key, what, case)
   _lw["n"] = _lw.get("n", 0) + 1
+  _lw["slow"] = case.get("slow")
+  _lw["slow_calls"] = 0
   dpid = 0x5000 + _lw["n"]
   got = _lw["got"][dpid] = []
   c, s = w.connect_switch_socket("L%d" % _lw["n"])
@@ -728,6 +736,8 @@ def run_loop (case, rep):
     elif k == "error": want.append((k, d["xid"]))
     elif k == "barrier_reply": want.append((k, d["xid"]))
   rep.count("streams_through_the_listening_loop")
+  if _lw.get("slow_calls"): rep.count("messages_handled_by_a_slow_handler", _lw["slow_calls"])
+  _lw["slow"] = None
   rep.count("delivered", len(got))
   if len(stream) > 2048: rep.count("over_2048")
   if got != want:
@@ -778,6 +788,9 @@ def gen_cases (spec):
       for _ in range(spec.get("rand", 6)):
         yield dict(base, cuts=sorted(rng.randrange(1, L) for _ in range(rng.randrange(1, 6))),
                    prefix_cuts=sorted(rng.randrange(1, P) for _ in range(rng.randrange(0, 3))))
+      yield dict(base, cuts=[], slow=rng.choice([0.3, 0.4, 1.0, 6.0]))
+      yield dict(base, cuts=sorted(rng.randrange(1, L) for _ in range(2)),
+                 slow=rng.choice([0.1, 0.4, 2.5, 31.0]))
     return
   if mode == "multi":
     for si in range(spec["streams"]):
